@@ -73,6 +73,7 @@ type frame struct {
 	defers   []deferred
 	lockEv   []string
 	callLog  map[string][][]Val // arguments of the calls made so far, by callee name
+	resLog   map[string][]Val   // results of those calls
 	ranges   map[*ssa.Range]*rangeInfo
 	cellOf   map[types.Object]ssa.Value // variables living in a cell (address taken / captured)
 }
